@@ -1,54 +1,66 @@
 (** C16 -- a line means the same at the prompt, with -c, in a script, function or source.
-    Statements only; proofs in Proofs/RerenderProofs.v (+ TokenizerProofs.v).
+    Statements only; proofs in Proofs/{RerenderProofs,FoldProofs}.v (+ TokenizerProofs.v).
 
     The script path (script file, function body, sourced file, loop heads) sends
-    every line through [expand_args] = parse_line -> expand_args_in_tokens ->
-    tokens_to_line before [run_command_line]; the [-c] path and the prompt do not.
-    For a line without positional parameters the pass is exactly
-    [rerender = tokens_to_line o parse_line] ([C16_script_pass]).
+    every line through [expand_args] before [run_command_line]; the [-c] path
+    and the prompt do not. Since 032e44d [expand_args] returns the line
+    UNCHANGED unless a token needs positional expansion.
 
-    Status. [C16_full] (the round trip preserves the plan of every list segment) is
-    FALSE of the code: [C16_refuted] and the witnesses [C16_refuted_*], one per
-    mechanism (classes of known_findings.txt). Proved, unbounded:
-    [C16_inverse]/[C16_spaced]: tokens_to_line is a right inverse of parse_line
-    on renderable tokens (unquoted words, bar tokens, single-quoted texts, double-
-    quoted texts with escapes), for any spacing; [C16_partial]: the round trip
-    leaves the tokens -- hence the plan, for every later pass -- of a renderable
-    line unchanged; [C16_quoted]: instance on the whole C01 domain;
-    [C16_fixed_full]: with the proposed repair (notes/C16-fix-1.patch) the pass is
-    the identity on every positional-free line, so the full statement holds.
-    NOT proved: that list splitting (line_to_cmds) commutes with the round trip
-    outside the failing classes; that is carried by the correspondence check
-    (exhaustive short lines: outside [known_c16] the law holds on the
-    implementation's own output). *)
+    [C16_full] (main): for every line without positional parameters and all
+    script arguments, [expand_args l args = l]; hence the text handed to
+    run_command_line -- and with it the list segments, token lists and plans,
+    for ANY later pass -- is the one -c and the prompt hand over. No
+    renderability hypothesis. The former witnesses of the refuted statement
+    are kept as regression examples that now satisfy it.
+
+    Lines WITH positional parameters are still tokenized, substituted and
+    re-rendered ([C16_positional_pass]); about that rendering:
+    [C16_inverse]/[C16_spaced] (tokens_to_line is a right inverse of parse_line on
+    renderable tokens, any spacing), [C16_partial] (the round trip leaves the
+    tokens of a renderable line unchanged), [C16_quoted] (C01 domain).
+
+    Script files only: run_script folds continuation lines textually before
+    anything else. [C16_fold_full] (a text none of whose lines asks for a
+    continuation -- every newline follows an even number of backslashes -- is
+    left alone) is FALSE of the code: [C16_fold_refuted] (class
+    trailing-backslash). With the proposed repair (notes/C16-fix-2.patch) it
+    holds for all texts: [C16_fold_fixed_full]. *)
 From Cicada Require Import Base.Chars Base.Tag Model.Tokenizer Model.Cmds Model.Redirect Model.Rerender
-  Proofs.TokenizerProofs Proofs.RerenderProofs.
+  Proofs.TokenizerProofs Proofs.RerenderProofs Proofs.FoldProofs.
 Local Open Scope N_scope.
 
 Definition plan (l : str) := plan_tokens (parse_line l).
 
-Definition C16_full : Prop := forall l,
-  no_positional l = true -> is_complete l = true ->
-  map plan (line_to_cmds (rerender l)) = map plan (line_to_cmds l).
+(** main theorem *)
+Theorem C16_full : forall l args, no_positional l = true -> expand_args l args = XOk l.
+Proof. exact expand_args_id. Qed.
 
-(** the script path's pass on a positional-free line is the round trip *)
-Theorem C16_script_pass : forall l args,
-  no_positional l = true -> expand_args l args = XOk (rerender l).
-Proof. exact expand_args_rerender. Qed.
+(** ... hence the same list segments, tokens and plans, whatever runs afterwards *)
+Theorem C16_full_any_pass : forall (X : Type) (run : str -> X) l args,
+  no_positional l = true ->
+  exists l', expand_args l args = XOk l' /\ run l' = run l /\
+             map plan (line_to_cmds l') = map plan (line_to_cmds l).
+Proof. intros X run l args H. exists l. rewrite (expand_args_id l args H). repeat split. Qed.
 
-(** tokens_to_line is a right inverse of parse_line on renderable tokens *)
+(** with a positional parameter: tokenize, substitute, re-render *)
+Theorem C16_positional_pass : forall l args, no_positional l = false ->
+  expand_args l args =
+  match expand_args_in_tokens (parse_line l) args with
+  | XOk toks => XOk (tokens_to_line toks) | XPanic => XPanic | XFuel => XFuel
+  end.
+Proof. exact expand_args_positional. Qed.
+
+(** * The re-rendering (lines with positional parameters; C15's territory) *)
 Theorem C16_inverse : forall toks,
   forallb tok_ok toks = true -> is_arithmetic (tokens_to_line toks) = false ->
   parse_line (tokens_to_line toks) = toks.
 Proof. exact parse_tokens_to_line. Qed.
 
-(** ... and so is every other spacing of the same tokens *)
 Theorem C16_spaced : forall (l : list (nat * token)) n t,
   all_ok l = true -> tok_ok t = true -> is_arithmetic (render_ln l n t) = false ->
   parse_line (render_ln l n t) = map snd l ++ [t].
 Proof. exact parse_line_sp. Qed.
 
-(** main theorem: the round trip is the identity on the tokens of a renderable line *)
 Theorem C16_partial : forall l,
   renderable l = true -> parse_line (rerender l) = parse_line l.
 Proof. exact rerender_tokens. Qed.
@@ -58,89 +70,87 @@ Theorem C16_partial_plan : forall (expand : list token -> list token) l,
   plan_tokens (expand (parse_line (rerender l))) = plan_tokens (expand (parse_line l)).
 Proof. intros expand l H. now rewrite (rerender_tokens l H). Qed.
 
-(** the C01 domain: plain command word, single-/double-quoted arguments, any spacing *)
 Theorem C16_quoted : forall cmd (args : list (nat * qarg)),
   plain_word cmd = true -> forallb arith_body cmd = false ->
   forallb (fun '(_, a) => wf_qarg a) args = true ->
   parse_line (rerender (render_cmd cmd args)) = parse_line (render_cmd cmd args).
 Proof. exact rerender_quoted. Qed.
 
-(** with the proposed repair the pass leaves a positional-free line alone *)
-Theorem C16_fixed_full : forall l args,
-  no_positional l = true ->
-  exists l', expand_args_fixed l args = XOk l' /\
-             map plan (line_to_cmds l') = map plan (line_to_cmds l).
-Proof. intros l args H. exists l. split; [now apply expand_args_fixed_id|reflexivity]. Qed.
-
+Check C16_full : forall l args, no_positional l = true -> expand_args l args = XOk l.
 Check C16_partial : forall l, renderable l = true -> parse_line (rerender l) = parse_line l.
-Check C16_inverse : forall toks,
-  forallb tok_ok toks = true -> is_arithmetic (tokens_to_line toks) = false ->
-  parse_line (tokens_to_line toks) = toks.
 
-(** * Refutation of the full statement, one witness per mechanism.
-    Each line is complete, has no positional parameter, and the tokens of its
-    list segments differ after the round trip. *)
-Definition differs (l : str) : Prop :=
-  no_positional l = true /\ is_complete l = true /\
-  map plan (line_to_cmds (rerender l)) <> map plan (line_to_cmds l).
+(** * Regression examples: the witnesses that refuted the statement before 032e44d.
+    Each is positional-free, the bare round trip still changes its segments'
+    plans, and the script path now leaves it alone. *)
+Definition regression (l : str) : Prop :=
+  no_positional l = true /\
+  map plan (line_to_cmds (rerender l)) <> map plan (line_to_cmds l) /\
+  expand_args l [] = XOk l.
 
-(* echo a\;b  becomes  echo a;b : two commands *)
+(* echo a\;b *)
 Definition w_esc_op : str := [101;99;104;111;32;97;92;59;98].
-(* echo a\ b  becomes  echo a b : two arguments *)
+(* echo a\ b *)
 Definition w_esc_blank : str := [101;99;104;111;32;97;92;32;98].
-(* echo a\#b  becomes  echo a#b : line_to_cmds cuts at the hash *)
+(* echo a\#b *)
 Definition w_esc_hash : str := [101;99;104;111;32;97;92;35;98].
-(* echo 'a';echo b  becomes  echo 'a;echo' b *)
+(* echo 'a';echo b *)
 Definition w_glue : str := [101;99;104;111;32;39;97;39;59;101;99;104;111;32;98].
-(* true||echo b  becomes  true | | echo b *)
+(* true||echo b *)
 Definition w_orglue : str := [116;114;117;101;124;124;101;99;104;111;32;98].
 (* (a;b) *)
 Definition w_paren : str := [40;97;59;98;41].
 
-Ltac differs_tac := repeat split; try (vm_compute; reflexivity); vm_compute; discriminate.
+Ltac regression_tac := split; [vm_compute; reflexivity|split; [vm_compute; discriminate|vm_compute; reflexivity]].
+Example C16_regression_esc_op : regression w_esc_op. Proof. regression_tac. Qed.
+Example C16_regression_esc_blank : regression w_esc_blank. Proof. regression_tac. Qed.
+Example C16_regression_esc_hash : regression w_esc_hash. Proof. regression_tac. Qed.
+Example C16_regression_glue : regression w_glue. Proof. regression_tac. Qed.
+Example C16_regression_orglue : regression w_orglue. Proof. regression_tac. Qed.
+Example C16_regression_paren : regression w_paren. Proof. regression_tac. Qed.
 
-Theorem C16_refuted_esc_op : differs w_esc_op /\ rerender w_esc_op = [101;99;104;111;32;97;59;98].
-Proof. split; [differs_tac|vm_compute; reflexivity]. Qed.
-Theorem C16_refuted_esc_blank : differs w_esc_blank.
-Proof. differs_tac. Qed.
-Theorem C16_refuted_esc_hash : differs w_esc_hash.
-Proof. differs_tac. Qed.
-Theorem C16_refuted_glue : differs w_glue.
-Proof. differs_tac. Qed.
-Theorem C16_refuted_orglue : differs w_orglue.
-Proof. differs_tac. Qed.
-Theorem C16_refuted_paren : differs w_paren.
-Proof. differs_tac. Qed.
-
-Theorem C16_refuted : ~ C16_full.
-Proof.
-  intros H. destruct C16_refuted_esc_op as [(Hp & Hc & Hd) _]. exact (Hd (H _ Hp Hc)).
-Qed.
-
-(** every witness lies in its class of [known_c16] *)
-Example C16_witness_classes :
-  k_esc (c16_classes w_esc_op) = true /\ k_esc (c16_classes w_esc_blank) = true /\
-  k_esc (c16_classes w_esc_hash) = true /\ k_glue (c16_classes w_glue) = true /\
-  k_orglue (c16_classes w_orglue) = true /\ k_paren (c16_classes w_paren) = true.
-Proof. vm_compute. repeat split. Qed.
-
-(** Non-vacuity of [C16_partial]:
-    prog 'a|b;c' DQ x \DQ > y  & DQ   > out ; next $V || z   (DQ = the double quote)
-    is renderable, outside every class, and has 10 tokens. *)
+(** Non-vacuity:  prog 'a|b;c' DQ x \DQ > y  & DQ   > out ; next $V || z   (DQ = the double quote)
+    has no positional parameter (so [C16_full] applies), is renderable with 10 tokens
+    (so [C16_partial] applies), and the bare round trip does change its text;
+    echo $1 a  is a line the pass does rewrite. *)
 Example C16_nonvacuous :
   let l := [112;114;111;103;32;39;97;124;98;59;99;39;32;34;120;32;92;34;32;62;32;121;32;32;38;34;
             32;32;32;62;32;111;117;116;32;59;32;110;101;120;116;32;36;86;32;124;124;32;122] in
-  renderable l = true /\ known_c16 l = false /\ length (parse_line l) = 10%nat /\
-  rerender l <> l.
+  no_positional l = true /\ renderable l = true /\ length (parse_line l) = 10%nat /\ rerender l <> l /\
+  no_positional [101;99;104;111;32;36;49;32;97] = false /\
+  expand_args [101;99;104;111;32;36;49;32;97] [[115]; [120;32;121]] = XOk [101;99;104;111;32;120;32;121;32;97].
 Proof. vm_compute. repeat split. discriminate. Qed.
 
-Print Assumptions C16_script_pass.
+(** * Continuation folding in script files *)
+Definition C16_fold_full : Prop := forall t, no_cont t = true -> fold_lines t = t.
+
+(* echo a\\ NL b NL : two lines, the first ends in an ESCAPED backslash; folded into  echo a\b *)
+Definition w_fold : str := [101;99;104;111;32;97;92;92;10;98;10].
+
+Theorem C16_fold_refuted : ~ C16_fold_full.
+Proof. intros H. specialize (H w_fold eq_refl). vm_compute in H. discriminate. Qed.
+
+Example C16_fold_witness : no_cont w_fold = true /\ fold_lines w_fold = [101;99;104;111;32;97;92;98;10].
+Proof. vm_compute. split; reflexivity. Qed.
+
+Theorem C16_fold_fixed_full : forall t, no_cont t = true -> fold_lines_fixed t = t.
+Proof. exact fold_fixed_id. Qed.
+
+(** the repair keeps genuine continuations:  echo a \ NL (2 blanks) b NL  ->  echo a b NL ,
+    and  a\\\ NL b  (three backslashes: escaped backslash + continuation) -> a\\b *)
+Example C16_fold_fixed_still_folds :
+  fold_lines_fixed [101;99;104;111;32;97;32;92;10;32;32;98;10] = [101;99;104;111;32;97;32;98;10] /\
+  fold_lines [101;99;104;111;32;97;32;92;10;32;32;98;10] = [101;99;104;111;32;97;32;98;10] /\
+  fold_lines_fixed [97;92;92;92;10;98] = [97;92;92;98] /\
+  fold_lines_fixed w_fold = w_fold.
+Proof. vm_compute. repeat split. Qed.
+
+Print Assumptions C16_full.
+Print Assumptions C16_full_any_pass.
+Print Assumptions C16_positional_pass.
 Print Assumptions C16_inverse.
 Print Assumptions C16_spaced.
 Print Assumptions C16_partial.
 Print Assumptions C16_partial_plan.
 Print Assumptions C16_quoted.
-Print Assumptions C16_fixed_full.
-Print Assumptions C16_refuted.
-Print Assumptions C16_refuted_glue.
-Print Assumptions C16_refuted_orglue.
+Print Assumptions C16_fold_refuted.
+Print Assumptions C16_fold_fixed_full.
